@@ -42,19 +42,15 @@ structure LBFaithful (S : Segmenter) (U : UData) : Prop where
   editWord : ∀ a, EditOK (LB.editWord S U a) id
   transposeWords : ∀ n, EditOK (LB.transposeWords S U n) id
   indent : ∀ m k d, EditOK (LB.indent S U m k d) id
-  yank : ∀ t n, EditOK (LB.yank S U t n) Option.isSome
+  /-- a refused paste left the line alone — from every state (it is asked after the step forward of
+      `Anchor::After`, where nothing is known of the cursor) -/
+  yank : ∀ t n lb r lb' ns, LB.yank S U t n lb = .ok (r, lb', ns) → r.isSome = false →
+    lb'.buf = lb.buf ∧ lb'.pos = lb.pos
   yankPop : ∀ k t, EditOK (LB.yankPop S U k t) Option.isSome
   delete : ∀ n, EditOK (LB.delete S U n) Option.isSome
   /-- `Undo` that undid nothing left the line alone -/
   undo : ∀ (c c' : Changeset) (l l' : LB) (n : Nat), IsBoundary l.buf l.pos →
     c.undo S U l n = .ok (c', l', false) → l'.buf = l.buf ∧ l'.pos = l.pos
-  /-- `edit_yank` with `Anchor::After`: a refused paste (`None`) after the step forward, and the step back,
-      end where the command started -/
-  yankAfter : ∀ (t : Text) (n : Nat) (lb l1 l2 l3 : LB) (r1 r3 : Bool) (ns1 ns2 ns3 : List Notif),
-    IsBoundary lb.buf lb.pos → LB.moveForward S U 1 lb = .ok (r1, l1, ns1) →
-    LB.yank S U t n l1 = .ok (none, l2, ns2) →
-    (if r1 then LB.moveBackward S U 1 l2 = .ok (r3, l3, ns3) else l3 = l2) →
-    l3.buf = lb.buf ∧ l3.pos = lb.pos
 
 section
 variable {S : Segmenter} {U : UData} {cfg : EdCfg}
@@ -476,9 +472,43 @@ theorem pres_editYank (text : Text) (anchor : Anchor) (n : Nat) :
     split
     · exact Est.bind_keeps (lk_lbQuiet _) fun _ => est_refreshLine hc hprompt
     · exact est_refreshLine hc hprompt
+  -- the paste, and on refusal `set_pos(pos)`: from a state whose line holds the text of `s` (the cursor may
+  -- have stepped forward)
+  have tail : ∀ (s : Ed) (l1 : LB), Sh S U cfg s → l1.buf = s.line.buf →
+      wp (do match ← lb S U (LB.yank S U text n) with
+             | some _ => do
+               if cfg.vi then do let _ ← lbQuiet (LB.moveBackward S U 1); Pure.pure ()
+               refreshLine S U cfg
+             | none => lbQuiet (LB.setPosChecked S U s.line.pos) : EM Unit)
+        (fun _ s' => Sh S U cfg s') (fun _ s' => LogOK S U cfg s') ({ s with line := l1 } : Ed) := by
+    intro s l1 h hb1
+    have hi1 : LogInv S U cfg ({ s with line := l1 } : Ed) := h.inv.of_eq rfl rfl
+    rw [wp_bind]
+    cases hs2 : LB.yank S U text n l1 with
+    | error e =>
+      rw [wp, lb_error S U (s := { s with line := l1 }) hs2]; exact hi1.ok
+    | ok r =>
+      obtain ⟨a, l2, ns2⟩ := r
+      refine wp_lb S U (s := { s with line := l1 }) hs2 ?_
+      cases a with
+      | some x => exact hsome.h _ (hi1.of_eq rfl rfl)
+      | none =>
+        simp only []
+        obtain ⟨hb2, _⟩ := hf.yank text n l1 none l2 ns2 hs2 rfl
+        by_cases hle : s.line.pos ≤ l2.len
+        · have hs3 : LB.setPosChecked S U s.line.pos l2 = .ok ((), { l2 with pos := s.line.pos }, []) := by
+            simp [LB.setPosChecked, hle]
+          refine wp_lbQuiet (s := { s with line := l2, changes := s.changes.onNotifs S U.alnum ns2 }) hs3 ?_
+          exact h.of_eq rfl rfl (by show l2.buf = s.line.buf; rw [hb2, hb1]) rfl rfl
+        · have hs3 : LB.setPosChecked S U s.line.pos l2 = .error .panic := by
+            simp [LB.setPosChecked, hle]
+          have e3 : lbQuiet (LB.setPosChecked S U s.line.pos) ({ s with line := l2, changes := s.changes.onNotifs S U.alnum ns2 } : Ed) = .error (.panic, ({ s with line := l2, changes := s.changes.onNotifs S U.alnum ns2 } : Ed)) := by
+            unfold lbQuiet; simp only []; rw [hs3]
+          unfold wp; rw [e3]; exact (hi1.of_eq rfl rfl).ok
   constructor
   intro s h
   unfold editYank
+  rw [wp_bind, wp_get]
   simp only []
   by_cases ha : (anchor == Anchor.after) = true
   · rw [if_pos ha, wp_bind]
@@ -489,49 +519,10 @@ theorem pres_editYank (text : Text) (anchor : Anchor) (n : Nat) :
     | ok r =>
       obtain ⟨r1, l1, ns1⟩ := r
       refine wp_lbQuiet hs1 ?_
-      rw [wp_bind]
-      have hi1 : LogInv S U cfg ({ s with line := l1 } : Ed) := h.inv.of_eq rfl rfl
-      cases hs2 : LB.yank S U text n l1 with
-      | error e =>
-        rw [wp, lb_error S U (s := { s with line := l1 }) hs2]; exact hi1.ok
-      | ok r =>
-        obtain ⟨a, l2, ns2⟩ := r
-        refine wp_lb S U (s := { s with line := l1 }) hs2 ?_
-        cases a with
-        | some x => exact hsome.h _ (hi1.of_eq rfl rfl)
-        | none =>
-          simp only []
-          cases r1 with
-          | false =>
-            simp only [Bool.false_eq_true, if_false, wp_pure]
-            intro hfine
-            obtain ⟨hb, hp⟩ := hf.yankAfter text n s.line l1 l2 l2 false false ns1 ns2 []
-              (h.boundary hc hprompt hfine) hs1 hs2 (by simp)
-            show ShownP S (edR U cfg) cfg.prompt s.render s.layoutCursor l2.buf l2.pos s.hint
-            rw [hb, hp]; exact h hfine
-          | true =>
-            simp only [if_true, wp_bind, wp_pure]
-            cases hs3 : LB.moveBackward S U 1 l2 with
-            | error e =>
-              have e3 : lbQuiet (LB.moveBackward S U 1) ({ s with line := l2, changes := s.changes.onNotifs S U.alnum ns2 } : Ed) = .error (.panic, ({ s with line := l2, changes := s.changes.onNotifs S U.alnum ns2 } : Ed)) := by
-                unfold lbQuiet; simp only []; rw [hs3]
-              unfold wp; rw [e3]; exact (hi1.of_eq rfl rfl).ok
-            | ok r =>
-              obtain ⟨r3, l3, ns3⟩ := r
-              refine wp_lbQuiet (s := { s with line := l2, changes := s.changes.onNotifs S U.alnum ns2 }) hs3 ?_
-              intro hfine
-              obtain ⟨hb, hp⟩ := hf.yankAfter text n s.line l1 l2 l3 true r3 ns1 ns2 ns3
-                (h.boundary hc hprompt hfine) hs1 hs2 (by simpa using hs3)
-              show ShownP S (edR U cfg) cfg.prompt s.render s.layoutCursor l3.buf l3.pos s.hint
-              rw [hb, hp]; exact h hfine
-  · rw [if_neg ha, wp_bind, wp_pure, wp_bind]
-    refine wp_mono (wp_lb_sh hc hprompt (hf.yank text n) h) (fun a s2 hh => ?_) (fun _ _ e => e)
-    obtain ⟨hi, hs⟩ := hh
-    cases a with
-    | some x => exact hsome.h _ hi
-    | none =>
-      simp only [Bool.false_eq_true, if_false, wp_pure]
-      exact hs rfl
+      exact tail s l1 h ((PosOnly.moveForward S U 1).h _ _ _ _ hs1).1
+  · rw [if_neg ha]
+    have := tail s s.line h rfl
+    exact this
 
 omit hf in
 /-- the `Indent` / `Dedent` arms of `execute` -/
